@@ -421,6 +421,11 @@ CLAUSES = [
     ),
 ]
 
+from ..names_check import names_clause  # noqa: E402
+
+if names_clause("C14") is not None:
+    CLAUSES.append(names_clause("C14"))
+
 PROPERTY = Property(
     id="C14",
     level="exploration",
